@@ -186,8 +186,11 @@ def replay_behaviour(steps, stats=None):
                     break
         if not probs:       # the real calls are atomic: the world is idle even if the behaviour stops mid fan-out
             probs += w.check_props() + w.final_log_check()
-    except Mismatch as m:
-        probs.append((m.key, m.what))
+    except Exception as ex:     # noqa: the real classes raised where the model allows the action (the expected refusals are handled by World._try)
+        if isinstance(ex, Mismatch):
+            probs.append((ex.key, ex.what))
+        else:
+            probs.append((f"bus/raises/{type(ex).__name__}", f"the real uros classes raised on an action the model allows: {str(ex)[:300]}"))
         try:                # the real calls are atomic, so the world is idle: what the property itself says about it
             probs += [p for p in w.check_props() if p not in probs]
         except Exception:   # noqa
